@@ -13,7 +13,7 @@ Tie (ctx.divergence): model vs real on (a) the option grid of scripted bodies, (
 Property oracle (ctx.violation): for the scripted scenarios the statement of C18 is evaluated directly on what the real
 code did (see `oracle`), independent of the Lean model.
 """
-import itertools, json, os, random, sqlite3, sys, warnings
+import itertools, json, os, random, signal, sqlite3, sys, warnings
 
 import ponyutil
 ponyutil.add_stubs()
@@ -130,6 +130,24 @@ def callable_of_table(table, field='pred'):
 # ---------------------------------------------------------------------------------------------------------------------
 # the real interpreter
 # ---------------------------------------------------------------------------------------------------------------------
+class Blocked(BaseException):
+    """the watchdog fired: the program under test (or the cleanup after it) blocked — e.g. on the provider's
+    transaction lock still held by a transaction an earlier session left open"""
+
+
+class watchdog(object):
+    """SIGALRM guard around a piece of real code (lock.acquire is interruptible in the main thread)"""
+    def __init__(self, seconds): self.seconds = seconds
+    def _fire(self, signum, frame): raise Blocked('blocked for more than %d s' % self.seconds)
+    def __enter__(self):
+        try:
+            self.old = signal.signal(signal.SIGALRM, self._fire); signal.alarm(self.seconds); self.armed = True
+        except ValueError: self.armed = False          # not in the main thread
+    def __exit__(self, *a):
+        if self.armed:
+            signal.alarm(0); signal.signal(signal.SIGALRM, self.old)
+
+
 class InvalidConfig(Exception):
     """db_session(**options) itself refused the options (constructor validation is not part of the model)"""
 
@@ -218,12 +236,27 @@ class Real(object):
         except Exception: pass
         ponyutil.rmtree(self.dir)
 
-    def reset(self):
+    def force_clean(self):
+        """bring the thread and the connection back to a clean state WITHOUT relying on the code under test:
+        close leaked caches, roll the pooled connection back, release a transaction lock left held"""
         core.local.db_context_counter = 0
         core.local.db_session = None
-        try: rollback()
-        except Exception: pass
+        for cache in list(core.local.db2cache.values()):
+            try: cache.rollback()
+            except BaseException: pass
         core.local.db2cache.clear()
+        prov = self.db.provider
+        con = getattr(prov.pool, 'con', None)
+        if con is not None:
+            try: sqlite3.Connection.rollback(con)
+            except BaseException: pass
+        lock = getattr(prov, 'transaction_lock', None)
+        if lock is not None and lock.locked():
+            try: lock.release()
+            except BaseException: pass
+
+    def reset(self):
+        self.force_clean()
         self.fail = []                      # the cleanup below writes: no injected faults there
         with db_session:
             self.db.execute('delete from W')
@@ -308,6 +341,7 @@ class Real(object):
                     for w in st.get('writes', []): self.W(tag=w)
                     if st.get('commit'): commit()
                     for w in st.get('late', []): self.W(tag=w)
+                    if st.get('flush'): flush()          # engine-only: the pending writes reach the open transaction
                     fin = st.get('fin', 'yield')
                     if fin == 'yield': yield i
                     elif fin == 'ret': return
@@ -317,6 +351,7 @@ class Real(object):
                     for w in st.get('writes', []): self.W(tag=w)
                     if st.get('commit'): commit()
                     for w in st.get('late', []): self.W(tag=w)
+                    if st.get('flush'): flush()          # engine-only: the pending writes reach the open transaction
                     fin = st.get('fin', 'yield')
                     if fin == 'yield': await Suspend(i)
                     elif fin == 'ret': return
@@ -378,7 +413,8 @@ class Real(object):
         self.fail = [x for x in case.get('env', {}).get('commit_fail', [])]
         out = 'ret'
         try:
-            self.run(case['prog'])
+            with watchdog(20):
+                self.run(case['prog'])
         except InvalidConfig:
             for it in self.keep:
                 try: it.close()
@@ -391,14 +427,21 @@ class Real(object):
                'inner_exit_events': list(self.inner_exit_events)}
         if case['prog']['k'] in ('call', 'bottle'):
             obs['attempts'] = case['prog']['_executions'][0]
-        clean = obs['counter'] == 0 and not obs['session'] and not obs['pending_caches']
-        if not clean:
-            core.local.db_context_counter = 0; core.local.db_session = None
-            try: rollback()
-            except Exception: pass
-            core.local.db2cache.clear()
+        lock = getattr(self.db.provider, 'transaction_lock', None)
+        obs['lock_held'] = bool(lock is not None and lock.locked())      # a transaction was left open behind the session
         obs['raw_rows'] = self.independent_rows()        # first: what is really committed, through an independent connection
-        obs['committed'] = self.rows()
+        # what a NEXT session would make of what this one left behind: commit whatever is still attached to the thread
+        if obs['pending_caches'] or obs['lock_held']:
+            try:
+                with watchdog(10):
+                    core.local.db_context_counter = 0; core.local.db_session = None
+                    with db_session: pass
+            except BaseException: pass
+            obs['after_next_session'] = self.independent_rows()
+        self.force_clean()
+        try:
+            with watchdog(10): obs['committed'] = self.rows()
+        except Blocked: obs['committed'] = ['blocked']
         for it in self.keep:
             try: it.close()
             except BaseException: pass
@@ -587,7 +630,7 @@ def scripted(kind, o, depth, inner_kinds, outcomes, commit_fail=()):
         out = outcomes[0]
         ws = spec_bodies[0]['writes']
         steps = [{'writes': [], 'commit': False, 'late': [], 'fin': 'yield', 'resume': 'next'},
-                 {'writes': ws, 'commit': False, 'late': [], 'fin': 'ret' if out == 'ret' else {'raise': out}, 'resume': 'next'}]
+                 {'writes': ws, 'commit': False, 'late': [], 'flush': True, 'fin': 'ret' if out == 'ret' else {'raise': out}, 'resume': 'next'}]
         prog = {'k': 'iter', 'o': o, 'steps': steps}
     spec = {'kind': kind, 'depth': depth, 'inner': list(inner_kinds[:depth - 1]), 'bodies': spec_bodies,
             'retry': o.get('retry', 0) if kind in ('decorator',) else 0,
@@ -675,6 +718,16 @@ def scripted_manual(kind, o, variant, outcomes, commit_fail=()):
     return {'prog': prog, 'env': env, 'spec': spec}
 
 
+def leak_checks(ctx, inp, obs, prefix):
+    """what was left behind must not get committed by whoever uses the thread next; the program must not block"""
+    if 'after_next_session' in obs and obs['after_next_session'] != obs['raw_rows']:
+        ctx.violation('an empty db_session entered afterwards on the same thread changed the database from %s to %s: it committed what the '
+                      'finished session had left behind' % (obs['raw_rows'], obs['after_next_session']), inp, observed=obs,
+                      key=prefix + 'leak-committed-later')
+    if isinstance(obs['out'], dict) and obs['out']['raise'].startswith('other:Blocked'):
+        ctx.violation('the program blocked (transaction lock never released)', inp, observed=obs, key=prefix + 'blocked')
+
+
 def oracle_manual(ctx, case, obs):
     """C18 for bodies that commit themselves: what a body committed itself stays; of the rest, what is pending when the
     final execution ends is committed iff it finished normally / raised an allowed, non-retried exception; every
@@ -723,8 +776,10 @@ def oracle_manual(ctx, case, obs):
         ctx.violation('the body raised %s but the session swallowed it' % fout, inp, observed=obs, key=key0 + '-swallowed')
     if fout == 'ret' and obs['out'] != 'ret':
         ctx.violation('the body finished normally but %s was raised' % obs['out'], inp, observed=obs, key=key0 + '-spurious-exception')
-    if obs['counter'] != 0 or obs['session'] or obs['pending_caches']:
-        ctx.violation('session state left behind', inp, observed=obs, key=key0 + '-leak')
+    if obs['counter'] != 0 or obs['session'] or obs['pending_caches'] or obs.get('lock_held'):
+        ctx.violation('session state left behind (counter=%s, db_session set=%s, caches=%s, transaction lock held=%s)'
+                      % (obs['counter'], obs['session'], obs['pending_caches'], obs.get('lock_held')), inp, observed=obs, key=key0 + '-leak')
+    leak_checks(ctx, inp, obs, key0 + '-')
 
 
 def manual_grid(ctx, rng):
@@ -838,9 +893,10 @@ def oracle(ctx, case, obs):
     elif obs['out'] != 'ret' and not faulty:
         ctx.violation('the body finished normally but %s was raised' % obs['out'], inp, observed=obs, key=key0 + ':spurious-exception')
     # --- nothing leaks out of the session
-    if obs['counter'] != 0 or obs['session'] or obs['pending_caches']:
-        ctx.violation('after the outermost exit the thread still has session state (counter=%s, db_session set=%s, caches=%s)'
-                      % (obs['counter'], obs['session'], obs['pending_caches']), inp, observed=obs, key=key0 + ':leak')
+    if obs['counter'] != 0 or obs['session'] or obs['pending_caches'] or obs.get('lock_held'):
+        ctx.violation('after the outermost exit the thread still has session state (counter=%s, db_session set=%s, caches=%s, transaction lock held=%s)'
+                      % (obs['counter'], obs['session'], obs['pending_caches'], obs.get('lock_held')), inp, observed=obs, key=key0 + ':leak')
+    leak_checks(ctx, inp, obs, key0 + ':')
 
 
 def compare(ctx, case, obs, mod):
@@ -855,6 +911,7 @@ def compare(ctx, case, obs, mod):
     # db2cache may legitimately hold an unmodified cache only inside a session; outside it must be empty
     r['pending'] = False
     if obs['pending_caches'] and not (obs['session']): r['pending'] = True
+    if obs.get('lock_held'): r['pending'] = True
     if 'attempts' in mod and obs['counter'] == 0:
         m['attempts'] = mod['attempts']; r['attempts'] = obs.get('attempts')
     if m != r:
@@ -950,7 +1007,7 @@ def gen_grid(ctx, rng):
         o.update(mk_pred(rng, 'retryable', 'default'))
         w1 = [1, 2] if (mc1 or rng.random() < 0.3) else []
         steps = [{'writes': w1, 'commit': mc1, 'late': late1 if rng.random() < 0.4 else [], 'fin': fin1, 'resume': 'next'},
-                 {'writes': [11], 'commit': mc2, 'late': [], 'fin': fin2, 'resume': res2},
+                 {'writes': [11], 'commit': mc2, 'late': [], 'flush': rng.random() < 0.5, 'fin': fin2, 'resume': res2},
                  {'writes': [21], 'commit': False, 'late': [], 'fin': 'ret', 'resume': 'next'}]
         prog = {'k': 'iter', 'o': o, 'steps': steps, 'async': rng.random() < 0.5}
         env = {'should_retry': SHOULD_RETRY, 'tx': TX, 'commit_fail': cf}
